@@ -563,7 +563,7 @@ def check(ctx):
 
     # ------------------------------------------------------------------ R8 constant subscripts are in range for every input
     r8 = ctx.rule('R8', 'constant subscripts on sequences whose length depends on the comment text (str.split / partition / list displays) '
-                  'are in range on every path that evaluates them', floor=4)
+                  'are in range on every path that evaluates them', floor=1)
     bounds_rule(ctx, r8, 'annotationparser', 'GtkDocCommentBlockParser', rel)
 
 
